@@ -149,9 +149,13 @@ def record_shard(binpath, driver, seed, tier, shard, nshards, outfile, timeout, 
         if rc != 0:
             status["out_tail"] = out[-2000:]
             if "HARNESS PANIC" in out:
-                raise ToolError("the harness itself panicked (driver bug, not a verdict):\n" + out[-1500:])
+                # the harness called the library outside a recorded call and that panicked: either a driver bug or the
+                # library choking on a value it produced itself.  The recorded prefix decides: see check_property.
+                status["harness_panic"] = out[-1500:]
     except subprocess.TimeoutExpired:
         status["timeout"] = True
+    if status.get("harness_panic"):
+        return status
     if status["rc"] != 0 or status["timeout"]:
         # every Call has a Return: a crash or hang is made visible to the trace specification
         with open(outfile, "a") as f:
@@ -270,6 +274,7 @@ def check_property(pid, tier, seed):
     # 2. build + record + validate
     drivers = [d for d in spec.get("drivers", []) if tier in d.get("tiers", ("quick", "thorough"))]
     forms_seen = set()
+    harness_panics = []
     try:
         for d in drivers:
             binpath = build_harness(d.get("profile", "debug"), d.get("features"))
@@ -279,6 +284,9 @@ def check_property(pid, tier, seed):
             rec_futs = [pool.submit(record_shard, binpath, d["driver"], seed, tier, k, nsh, files[k], tmo, None, d.get("env"))
                         for k in range(nsh)]
             stats = [f.result() for f in rec_futs]
+            for st in stats:
+                if st.get("harness_panic"):
+                    harness_panics.append(st["harness_panic"])
             dinfo = {"driver": d["driver"], "profile": d.get("profile", "debug"), "shards": nsh,
                      "cases": max([s.get("cases", 0) for s in stats] + [0]), "events": sum(s.get("events", 0) for s in stats),
                      "crashed_shards": sum(1 for s in stats if s["rc"] != 0 or s["timeout"])}
@@ -361,6 +369,11 @@ def check_property(pid, tier, seed):
     if "custom" in spec:
         spec["custom"](pid, tier, seed, cov, violations, notes, sys.modules[__name__])
 
+    if harness_panics and not violations:
+        # nothing in the recorded prefixes explains it: tool trouble, not a verdict
+        raise ToolError("the harness itself panicked outside a recorded call (driver bug, not a verdict):\n" + harness_panics[0])
+    for hp in harness_panics[:1]:
+        notes.append("NOTE harness stopped early in a shard after a library panic outside a recorded call; violations below come from the recorded prefix")
     for n in notes[:20]:
         log(n)
     seen = set()
